@@ -22,12 +22,20 @@
 // modes: exh   all texts of <= 5 words over the boundary word lengths x separators {' ', '\n', ' nn '} x
 //              3 (indent, width) pairs x both first-line modes x {no list, first line a list item, every line}
 //        rand  random texts of 0..60 words, indent 0..12 (usage-like: 13..46), width 20..100 / 60..239
+//        usage the text block as the argument handler uses it (argument_desc.cpp): a handler with 1..8 arguments
+//              (keys of 1..46 characters around the same-line threshold 40, hidden / deprecated / mandatory,
+//              descriptions of 1..40 unique words), usage line length default or 60..239, usage printed with any
+//              combination of --print-hidden / --print-deprecated / --help-short / --help-long.  Judged on the
+//              usage text: U1 a line longer than the line length holds, besides the key that starts it, at most
+//              one word; U2 the words of every printed description appear exactly once and in their order, those
+//              of an argument that is not displayed never
 
 #include "vh.hpp"
 
 #include <sstream>
 
 #include "celma/format/text_block.hpp"
+#include "celma/prog_args.hpp"
 
 static vh::Progress prog;
 static vh::Out out;
@@ -346,6 +354,176 @@ static void run_case(const Case& c, uint64_t idx)
       printf("case %" PRIu64 ": %s\n", idx, describe(c, o).c_str());
 }
 
+// ------------------------------------------------------------------ usage mode
+
+struct UArg
+{
+   std::string spec, shortKey, longKey;
+   std::vector<std::string> words;
+   bool hidden = false, deprecated = false, mandatory = false;
+};
+
+static std::string gUsageDescr;
+
+static void run_usage_case(vh::Rng& r, uint64_t idx)
+{
+   using celma::prog_args::Handler;
+   static const char LET[] = "abcdefgijklmnopqrstuvwxyz";
+   const unsigned n = 1 + (unsigned)r.below(8);
+   std::vector<UArg> args(n);
+   // keys: mostly short ones, in a third of the cases one long key around the same-line threshold
+   const int special = r.chance(1, 3) ? (int)r.below(n) : -1;
+   const bool specialHidden = r.chance(1, 2);
+   for (unsigned i = 0; i < n; ++i)
+   {
+      UArg& a = args[i];
+      const unsigned form = (unsigned)r.below(4);      // 0,1 both; 2 short; 3 long
+      if (form != 3) a.shortKey = std::string(1, LET[(i * 3 + r.below(3)) % 25]);
+      if (form != 2 || (int)i == special)
+      {
+         unsigned len = 2 + (unsigned)r.below(14);
+         if ((int)i == special) len = 20 + (unsigned)r.below(27);      // 20..46: around MaxNameLength = 40
+         a.longKey = "l" + std::to_string(i);
+         while (a.longKey.size() < len) a.longKey += (a.longKey.size() % 7 == 3) ? '-' : (char)('a' + r.below(26));
+         if (a.longKey.back() == '-') a.longKey.back() = 'x';
+      }
+      a.spec = a.shortKey.empty() ? a.longKey : a.longKey.empty() ? a.shortKey : a.shortKey + "," + a.longKey;
+      const unsigned k = (unsigned)r.below(4) == 0 ? 1 + (unsigned)r.below(3) : 1 + (unsigned)r.below(40);
+      for (unsigned w = 0; w < k; ++w)
+      {
+         std::string word = "A" + std::to_string(i) + "w" + std::to_string(w);
+         unsigned len = 1 + (unsigned)r.below(12);
+         if (r.chance(1, 60)) len = 30 + (unsigned)r.below(60);
+         while (word.size() < len) word += (char)('a' + r.below(26));
+         a.words.push_back(word);
+      }
+      const unsigned v = (unsigned)r.below(10);
+      if ((int)i == special) { (specialHidden ? a.hidden : a.deprecated) = true; if (r.chance(1, 4)) a.hidden = a.deprecated = true; }
+      else if (v < 2) a.mandatory = true;
+      else if (v < 4) a.hidden = true;
+      else if (v < 6) a.deprecated = true;
+      else if (v < 7) a.hidden = a.deprecated = true;
+   }
+   const int lineLen = r.chance(1, 2) ? 80 : (int)r.range(60, 239);
+   bool printHidden = r.chance(1, 2), printDeprecated = r.chance(1, 2);
+   const unsigned contents = (unsigned)r.below(4);     // 0,1 all; 2 short; 3 long
+   std::vector<std::string> store = { "prog" };
+   {
+      std::vector<std::string> pre;
+      if (printHidden) pre.push_back("--print-hidden");
+      if (printDeprecated) pre.push_back("--print-deprecated");
+      if (contents == 2) pre.push_back("--help-short");
+      if (contents == 3) pre.push_back("--help-long");
+      for (size_t i = pre.size(); i > 1; --i) std::swap(pre[i - 1], pre[r.below(i)]);
+      for (auto& p : pre) store.push_back(p);
+      store.push_back(r.chance(1, 2) ? "-h" : "--help");
+   }
+   {
+      static char d[600];
+      int m = snprintf(d, sizeof d, "usage lineLen=%d args=", lineLen);
+      for (auto& a : args) if (m < 500) m += snprintf(d + m, sizeof d - m, "%s%s%s%s/%zu ", a.spec.substr(0, 50).c_str(), a.hidden ? ":H" : "", a.deprecated ? ":D" : "", a.mandatory ? ":M" : "", a.words.size());
+      for (auto& w : store) if (m < 580) m += snprintf(d + m, sizeof d - m, " %s", w.c_str());
+      prog.set(idx, d);
+      gUsageDescr = d;
+   }
+   std::ostringstream os, es;
+   std::vector<int> dest(n, 0);
+   std::string outcome;
+   try
+   {
+      Handler ah(os, es, Handler::hfHelpShort | Handler::hfHelpLong | Handler::hfUsageCont | Handler::hfArgHidden
+                            | Handler::hfArgDeprecated | Handler::hfUsageShort | Handler::hfUsageLong);
+      if (lineLen != 80 || r.chance(1, 4)) ah.setUsageLineLength(lineLen);
+      for (unsigned i = 0; i < n; ++i)
+      {
+         std::string desc;
+         for (auto& w : args[i].words) { if (!desc.empty()) desc += ' '; desc += w; }
+         auto* a = ah.addArgument(args[i].spec, DEST_VAR(dest[i]), desc);
+         if (args[i].mandatory) a->setIsMandatory();
+         if (args[i].hidden) a->setIsHidden();
+         if (args[i].deprecated) a->setIsDeprecated();
+      }
+      std::vector<char*> av;
+      for (auto& w : store) av.push_back(&w[0]);
+      av.push_back(nullptr);
+      ah.evalArguments((int)store.size(), av.data());
+   }
+   catch (const std::exception& e)
+   {
+      // mandatory arguments are missing on this command line: the usage was printed before
+      outcome = e.what();
+   }
+   const std::string o = os.str();
+   fs.add("usage.cases");
+   if (o.find("Usage:") == std::string::npos && o.find("arguments:") == std::string::npos)
+   {
+      fs.add("usage.no_usage_printed");
+      if (verbose) printf("case %" PRIu64 ": no usage; outcome=%s out=%s\n", idx, outcome.c_str(), o.c_str());
+      return;
+   }
+   // U1: width
+   bool bad = false;
+   size_t pos = 0, lineNo = 0;
+   unsigned longest = 0;
+   while (pos <= o.size())
+   {
+      size_t e = o.find('\n', pos);
+      if (e == std::string::npos) e = o.size();
+      const std::string line = o.substr(pos, e - pos);
+      pos = e + 1;
+      ++lineNo;
+      fs.add("usage.lines");
+      if (line.size() > longest) longest = (unsigned)line.size();
+      if (line.size() == (size_t)lineLen) fs.add("usage.lines_exactly_line_length");
+      if (line.size() <= (size_t)lineLen) continue;
+      // words of the line, the key that starts an entry line not counted
+      unsigned words = 0;
+      bool inWord = false;
+      for (char ch : line) { if (ch != ' ' && !inWord) { ++words; inWord = true; } else if (ch == ' ') inWord = false; }
+      const bool entry = line.compare(0, 4, "   -") == 0;
+      if (entry && words > 0) --words;
+      if (words <= 1) { fs.add("usage.overlong_single_word_lines"); continue; }
+      bad = true;
+      char b[200];
+      snprintf(b, sizeof b, "line %zu of the usage is %zu characters long with a line length of %d and holds %u words%s: ", lineNo, line.size(), lineLen, words, entry ? " besides the key" : "");
+      out.viol("usage-width|line longer than the usage line length", std::string(b) + line.substr(0, 300) + " | " + gUsageDescr);
+   }
+   // U2: words
+   {
+      std::vector<std::string> toks;
+      std::string cur;
+      for (char ch : o) { if (ch == ' ' || ch == '\n') { if (!cur.empty()) toks.push_back(cur); cur.clear(); } else cur += ch; }
+      if (!cur.empty()) toks.push_back(cur);
+      for (unsigned i = 0; i < n; ++i)
+      {
+         const UArg& a = args[i];
+         const bool hasKey = contents == 2 ? !a.shortKey.empty() : contents == 3 ? !a.longKey.empty() : true;
+         const bool vis = hasKey && (!a.hidden || printHidden) && (!a.deprecated || printDeprecated);
+         const std::string prefix = "A" + std::to_string(i) + "w";
+         std::vector<std::string> got;
+         for (auto& t : toks) if (t.compare(0, prefix.size(), prefix) == 0) got.push_back(t);
+         if (vis) { fs.add("usage.descriptions_printed"); fs.add("usage.words_compared", a.words.size()); }
+         else fs.add("usage.descriptions_suppressed");
+         if (vis ? got != a.words : !got.empty())
+         {
+            bad = true;
+            out.viol(vis ? "usage-words|description words lost, repeated or reordered in the usage" : "usage-words|description of an argument that is not displayed",
+                     "argument " + a.spec + ": " + std::to_string(got.size()) + " of " + std::to_string(a.words.size()) + " words found | " + gUsageDescr.c_str());
+         }
+      }
+   }
+   if (longest > 80) fs.add("usage.wide_usages");
+   {
+      uint64_t h = vh::hash_str(o, (uint64_t)lineLen);
+      out.distinct(h);
+   }
+   if (verbose || (bad && replayOne) || (out.wantSample() && idx % 97 == 3 && o.size() < 1500))
+   {
+      if (verbose || bad) printf("case %" PRIu64 ": %s\n%s\n", idx, gUsageDescr.c_str(), o.c_str());
+      else out.sample(std::string(gUsageDescr.c_str()) + " => " + std::to_string(lineNo) + " lines, longest " + std::to_string(longest));
+   }
+}
+
 // ------------------------------------------------------------------ generators
 
 static const char ALPHA[] = "abcdefghijklmnopqrstuvwxyznnnnABCXYZ0123456789.,:;()_/'-";
@@ -487,6 +665,19 @@ int main(int argc, char** argv)
    replayOne = a.count == 1;
    const unsigned nl = (unsigned)a.getu("lens", 5);
    const bool exh = a.mode == "exh";
+   if (a.mode == "usage")
+   {
+      for (uint64_t i = a.start; i < end; ++i)
+      {
+         out.curIdx = i;
+         vh::Rng r(vh::mix(a.seed, vh::mix(vh::hash_str(a.mode), i)));
+         run_usage_case(r, i);
+         fs.add("cases");
+      }
+      fs.flush();
+      out.finish(a);
+      return 0;
+   }
    if (!exh && a.mode != "rand") { fprintf(stderr, "unknown mode %s\n", a.mode.c_str()); return 3; }
 
    // self-test of the oracle's parsers on the example of the header / unit test
